@@ -518,7 +518,7 @@ class Single(SingleBase):
                         yield {"parent": parent, "flags": flags, "geno": g, "anc": anc, "nalleles": 2}
         # n = 5..7: random picks from the enumerated forests, 3 alleles, root_threshold / null tree variants
         for n, count in ((5, 400), (6, 500), (7, 300)):
-            count = count if tier == "quick" else count * 10
+            count = count if tier == "quick" else count * 6
             fs = list(forests(n)) if n <= 6 else None
             for _ in range(count):
                 parent = rng.choice(fs) if fs else [rng.choice([NULL] + list(range(u + 1, n))) for u in range(n)]
